@@ -35,6 +35,23 @@ Fixpoint arun (steps : list astep) (m : list (list Z)) (c : reg1) (last : option
   | ADerive :: t => arun t m c last
   end.
 
+(* the read-only attributes, through the GENERATED accessors (the slices np.s_[a:b] are modelled by hand as (a, b)) *)
+Definition props1 (s : reg1) : list Z :=
+  [Region1D_x0 s; Region1D_x1 s; Region1D_total_pixels s; Region1D_x0 s; Region1D_x1 s; Region1D_x0 s; Region1D_x1 s].
+Definition props2 (s : reg2) (p : reg1) : list Z :=
+  let sh := Region2D_shape s in let rg := Region2D_serial_x_front_range_from s p in
+  [Region2D_y0 s; Region2D_y1 s; Region2D_x0 s; Region2D_x1 s; Region2D_total_rows s; Region2D_total_columns s;
+   fst sh; snd sh; fst rg; snd rg;
+   Region2D_y0 s; Region2D_y1 s; Region2D_x0 s; Region2D_x1 s; Region2D_y0 s; Region2D_y1 s; Region2D_x0 s; Region2D_x1 s].
+(* hand model of rotate_pattern_ci_via_roe_corner_from: the list comprehension over the generated region rotation *)
+Fixpoint mapM_res {A B} (f : A -> res B) (l : list A) : res (list B) :=
+  match l with
+  | [] => Ok []
+  | x :: t => rbind (f x) (fun y => rbind (mapM_res f t) (fun ys => Ok (y :: ys)))
+  end.
+Definition pat_rot (rs : list (option reg2)) (s c : reg1) : res (list (option reg2)) :=
+  mapM_res (fun r => rotate_region_via_roe_corner_from r s c) rs.
+
 Definition agree (k : case) : bool :=
   match k with
   | KInit1 r out => r1e (Region1D_init r) out
@@ -75,6 +92,9 @@ Definition agree (k : case) : bool :=
   | KLayExt l e out => rle (lay_ext l e) out
   | KSlice m r out => arr_eqb (slice2 m r) out
   | KHistA m0 c0 steps outs => list_eqb oarr_eqb (arun steps m0 c0 None) outs
+  | KProps1 s out => list_eqb Z.eqb (props1 s) out
+  | KProps2 s p out => list_eqb Z.eqb (props2 s p) out
+  | KRotPattern rs s c out => res_eqb (list_eqb oreg_eqb) (pat_rot rs s c) out
   end.
 
 Definition check (k : case) : nat := verdict (agree k) (spec_ok k).
